@@ -16,7 +16,7 @@ import copy
 from typing import Dict, List, Optional, Tuple
 
 from ..cfg import (CFG, call_name, calls_in, walk_no_nested, parents_map, guards_of, attr_chain, enum_paths,
-                   const_int, flip_compare, ancestors)
+                   const_int, flip_compare, ancestors, branches, ctext, cconds, cguards_of)
 from ..core import AnalysisError, Ctx, Func, norm
 from ..util import branch_raises, stmts_sorted
 from .c20 import bind_args
@@ -484,19 +484,26 @@ def r10_6(ctx: Ctx, rule="R10.6"):
         for l in unk:
             v = norm(l.target)
             for n_ in walk_no_nested(l):
-                if isinstance(n_, ast.If) and branch_raises(n_.body) and isinstance(n_.test, ast.Compare) \
-                        and isinstance(n_.test.ops[0], ast.NotIn) and norm(n_.test.left) == v \
-                        and "complete_correspondence" in norm(n_.test.comparators[0]) \
-                        and any("KeyError" in norm(x) for x in ast.walk(n_) if isinstance(x, ast.Raise)):
+                if not isinstance(n_, ast.If):
+                    continue
+                ct, when_t, when_f = branches(n_)
+                if ct.startswith(v + " in ") and "complete_correspondence" in ct and branch_raises(when_f) \
+                        and any("KeyError" in norm(x) for s_ in when_f for x in ast.walk(s_) if isinstance(x, ast.Raise)):
                     oku = True
         ctx.ob(rule, f, unk[0] if unk else "unknown-name check", oku,
                "every name in the caller's dictionary must be a species with both resolutions attached, otherwise KeyError",
                node=unk[0] if unk else f.node)
         # no dictionary given: every complete species gets the default
-        nb = [n_ for n_ in f.node.body if isinstance(n_, ast.If) and norm(n_.test).replace(" ", "") == ("%s is None" % inp).replace(" ", "")]
-        okn = bool(nb) and isinstance(nb[0].body[-1], ast.Return) and not nb[0].orelse
+        nb = [n_ for n_ in f.node.body if isinstance(n_, ast.If) and branches(n_)[0] == ctext("%s is None" % inp)[0]]
+        nb_none = nb_given = []
+        if nb:
+            _t, nb_none, nb_given = branches(nb[0])
+            if not ctext("%s is None" % inp)[1]:
+                nb_none, nb_given = nb_given, nb_none
+        okn = bool(nb) and bool(nb_none) and isinstance(nb_none[-1], ast.Return) and not any(
+            isinstance(x, ast.Return) for s_ in nb_given for x in ast.walk(s_))
         if okn:
-            rv = nb[0].body[-1].value
+            rv = nb_none[-1].value
             if isinstance(rv, ast.DictComp):
                 okn = norm(rv.value) in defaults and "complete_correspondence" in norm(rv.generators[0].iter)
             else:
@@ -526,12 +533,10 @@ def r10_6(ctx: Ctx, rule="R10.6"):
                 continue
             stores = stores[-1:]           # the last store on the path is the entry that stays
             present = None
-            for t, o in p.conds():
-                tt = norm(t).replace(" ", "")
-                if tt == ("%sin%s" % (key, inp)):
+            pcs = cconds(p)
+            for tt, o in pcs:
+                if tt == ctext("%s in %s" % (key, inp))[0]:
                     present = o
-                elif tt == ("%snotin%s" % (key, inp)):
-                    present = not o
             val = stores[0].value
             env = {norm(s_.targets[0]): s_.value for s_ in st if isinstance(s_, ast.Assign) and isinstance(s_.targets[0], ast.Name)}
             seen = set()
@@ -561,7 +566,8 @@ def r10_6(ctx: Ctx, rule="R10.6"):
                 why = "" if ok else "the value stored is neither the caller's entry nor the default %s" % (defaults,)
                 if ok and present is True:
                     # present but stored default: only allowed when the entry is empty/falsy
-                    falsy = any(isinstance(t, ast.UnaryOp) and isinstance(t.op, ast.Not) and o for t, o in p.conds())
+                    entry = "%s[%s]" % (inp, key)
+                    falsy = any(not o and (tt == entry or (tt in env and norm(env[tt]) == entry)) for tt, o in pcs)
                     ok = falsy
                     why = "" if ok else "the caller gave an entry for this species but the default is stored"
             ctx.ob(rule, f, "path [%s] stores %s[%s] = %s" % (", ".join(("" if o else "not ") + norm(t) for t, o in p.conds()),
